@@ -894,14 +894,14 @@ pub fn check_main(prop: &dyn Prop, tier: Tier, seed: u64) -> i32 {
     let mut handled = 0;
     for s in &rr.suspects {
         handled += 1;
-        if handled > 6 {
+        if handled > 3 {
             inconclusive.push(format!("case {}: {} (not re-run, too many suspects)", s.index, s.why));
             continue;
         }
         let case = prop.gen_case(tier, seed, s.index);
         let f = Failure::new("hang_or_abort", None, s.why.clone());
         let p = write_replay(&root, id, &format!("i{}-suspect", s.index), &s.profile, &case, &f);
-        let limit = (prop.timeout_s(tier) * 2).max(60);
+        let limit = prop.timeout_s(tier).max(30);
         let r1 = run_case_file_in_child(&s.profile, &p, limit);
         let r2 = if r1 == ChildRun::Pass {
             ChildRun::Pass
@@ -935,7 +935,11 @@ pub fn check_main(prop: &dyn Prop, tier: Tier, seed: u64) -> i32 {
                 continue;
             }
             // minimise from the parent side with child runs
-            let minimal = minimise_in_children(prop, &case, &s.profile, &r1, limit.min(20));
+            let minimal = if handled == 1 {
+                minimise_in_children(prop, &case, &s.profile, &r1, limit.min(10))
+            } else {
+                case.clone()
+            };
             let p2 = write_replay(&root, id, &format!("i{}-{kind}", s.index), &s.profile, &minimal, &f2);
             violations += 1;
             exit = 1;
